@@ -112,7 +112,11 @@ def gen_source(rng):
         base = rng.choice([0, 1, -1, 2, 10, 255, 1000, 10 ** 6, 2 ** 53, 10 ** 17, 1600000000, 20000000000, 20000000001])
         frac = rng.choice([0, 0, 0, 0.5, 0.25, 0.1, 1e-9])
         v = base + frac if frac else base
-        sp = rng.randrange(9)
+        sp = rng.randrange(10)
+        if sp == 9:
+            # exact rationals (numbers.Rational): small and beyond the float grid (from 2**52 every float is integral)
+            return rng.choice([Fraction(7, 2), Fraction(3, 1), Fraction(base * 2 + 1, 2), Fraction(base, 1), Fraction(2 ** 53 + 1, 2),
+                               Fraction(10 ** 17 + 1, 2), Fraction(-(2 ** 60) + 1, 4), Fraction(1, 3), Fraction(10 ** 30, 1)])
         if sp == 0:
             return v
         if sp == 1:
